@@ -1,7 +1,7 @@
 // drive runs generated cases on the real absnfs code (built from /repo's working tree with
 // -tags verif) and writes them, with the implementation's observations, as Coq terms that the
 // correspondence files under coq/Corr evaluate.
-package main
+package lib
 
 import (
 	"encoding/json"
@@ -17,11 +17,11 @@ import (
 type Case struct {
 	Index int               `json:"index"`
 	Seed  uint64            `json:"seed"`
-	Kind  string            `json:"kind"`  // generator stream / shape label (for the distribution)
-	Text  string            `json:"text"`  // human-readable rendering (input and observation)
-	Coq   string            `json:"-"`     // the Coq term of type <Corr.Cxx.case>
-	Tags  map[string]int    `json:"tags"`  // measured features (ops, evictions, error kinds ...)
-	Key   string            `json:"-"`     // canonical key for distinctness
+	Kind  string            `json:"kind"` // generator stream / shape label (for the distribution)
+	Text  string            `json:"text"` // human-readable rendering (input and observation)
+	Coq   string            `json:"-"`    // the Coq term of type <Corr.Cxx.case>
+	Tags  map[string]int    `json:"tags"` // measured features (ops, evictions, error kinds ...)
+	Key   string            `json:"-"`    // canonical key for distinctness
 	Extra map[string]string `json:"extra,omitempty"`
 }
 
@@ -35,9 +35,11 @@ type Prop struct {
 	ShardSize  int
 }
 
-var props = map[string]*Prop{}
+// Props is the registry filled by the init functions of a driver command.
+var Props = map[string]*Prop{}
 
-func main() {
+// Main is the entry point shared by every driver command.
+func Main() {
 	prop := flag.String("prop", "", "property id")
 	seed := flag.Uint64("seed", 1, "seed")
 	n := flag.Int("n", 100, "number of generated cases")
@@ -45,7 +47,7 @@ func main() {
 	only := flag.Int("only", -1, "run only this case index")
 	tier := flag.String("tier", "quick", "tier")
 	flag.Parse()
-	p, ok := props[*prop]
+	p, ok := Props[*prop]
 	if !ok {
 		fmt.Fprintf(os.Stderr, "drive: unknown property %q\n", *prop)
 		os.Exit(2)
